@@ -433,11 +433,14 @@ Proof.
     pose proof (sim_set_state W _ _ self NONCE_SLOT (read_state W (load W D' self) self NONCE_SLOT + 1) Hl0) as Hs1.
     destruct (nth_error ad (Z.to_nat (read_state W (load W D' self) self NONCE_SLOT))) as [t|].
     2:{ apply after_call_lock. mklock. exact Hs1. }
+    rewrite (sim_read_loaded W _ _ t CREATED_SLOT Hs1), (sim_read_loaded W _ _ t CODE_SLOT Hs1).
+    match goal with |- lock W (if ?b then _ else _) _ => destruct b end.
+    { apply after_call_lock. mklock. by apply sim_load. }
     apply after_call_lock. apply do_call_gen_lock; [exact Hs1|].
     intros D2 D2' Hs2 Hpres. rewrite !create_run_eq.
-    pose proof (forall_list_lock order o W body IH Hp t _ _ (sim_reset W D2 D2' t Hs2 Hpres)) as Hb.
-    destruct (exec_list order o t body (W, reset_obj D2 t)) as [[Wb Db] ocb].
-    destruct (exec_list order o t body (W, reset_obj D2' t)) as [[Wb' Db'] ocb'].
+    pose proof (forall_list_lock order o W body IH Hp t _ _ (sim_set_state W _ _ t CREATED_SLOT 1 (sim_reset W D2 D2' t Hs2 Hpres))) as Hb.
+    destruct (exec_list order o t body (W, set_state W (reset_obj D2 t) t CREATED_SLOT 1)) as [[Wb Db] ocb].
+    destruct (exec_list order o t body (W, set_state W (reset_obj D2' t) t CREATED_SLOT 1)) as [[Wb' Db'] ocb'].
     destruct Hb as (Hoc & HW & HW' & Hsb). cbn in Hoc, HW, HW', Hsb. subst ocb' Wb Wb'.
     destruct ocb; cbn [fst snd]; mklock; [|exact Hsb]. destruct sc; [by apply sim_set_state|exact Hsb].
   - discriminate.
